@@ -612,6 +612,19 @@ func genC11(g *Gen, tier string, emit func(op string, args ...string)) {
 				emit("newtp", hxIn(g.plaintext(n)), hxIn(g.salt()), hxIn(g.pwSecret()), hxIn(g.ra()))
 			}
 		}
+		// "rejects lengths that are not 2+16k" whatever the octets are: a well-formed value with ONE octet in front
+		// (a tag that was not stripped: ≤ 0x1F, then the salt with its high bit), one behind, or one missing
+		for k := 1; k <= 15; k++ {
+			sec, ra := g.RandBytes(8), g.RandBytes(16)
+			salt := g.RandBytes(2)
+			salt[0] |= 0x80
+			if a, err := radius.NewTunnelPassword(g.plaintext(g.Pick(16*k-1, 16*k-8, 16*k-16)), salt, sec, ra); err == nil {
+				emit("tp", hxIn(append([]byte{byte(g.Intn(0x20))}, a...)), hxIn(sec), hxIn(ra))
+				emit("tp", hxIn(append(append([]byte{}, a...), byte(g.U64()))), hxIn(sec), hxIn(ra))
+				emit("tp", hxIn(a[:len(a)-1]), hxIn(sec), hxIn(ra))
+				emit("tp", hxIn(a[1:]), hxIn(sec), hxIn(ra))
+			}
+		}
 		for n := 0; n <= 300; n++ {
 			a := g.RandBytes(n)
 			if n > 0 && g.Chance(5, 6) {
